@@ -544,6 +544,17 @@ def judge_c09(scn, run) -> Tuple[List[Viol], Dict[str, int]]:
         if not silent:
             v.append(("C09/hang/%s" % (ops[0].kind if ops else "?"),
                       "the client stopped making progress although the device had answered every frame"))
+    # per connection: had everything the device sent before an operation started been read before it started?
+    clean_start: Dict[int, bool] = {}
+    for cl in run.clients:
+        sent_total: Dict[Any, int] = {}
+        read_total: Dict[Any, int] = {}
+        for op in cl.ops:
+            cid = getattr(op, "conn_cid", None)
+            clean_start[id(op)] = cid is not None and sent_total.get(cid, 0) == read_total.get(cid, 0)
+            if cid is not None:
+                sent_total[cid] = sent_total.get(cid, 0) + sum(len(ex.sent) for ex in op.exchanges)
+                read_total[cid] = read_total.get(cid, 0) + sum(len(r) for r in op.app_reads)
     for cl, op in all_ops(run):
         if op.outcome is None or op.kind == "login":
             continue
@@ -571,6 +582,20 @@ def judge_c09(scn, run) -> Tuple[List[Viol], Dict[str, int]]:
                 v.append(("C09/success-flag/%s/%s" % (op.kind, "empty" if not nonempty else "nonempty"),
                           "%s reported successful=%s but the final reply read was %d bytes" % (
                               op.kind, op.outcome[1]["successful"], len(final or b""))))
+            # ... and "the reply" is what the device returned to the last frame, not whatever happened to be left in
+            # a buffer: judged when every reply of the exchange arrived in one piece and within the 1024 bytes the
+            # statement quantifies over (a reply cut into segments, or longer, may legitimately spill into the next read)
+            exs = op.exchanges
+            if exs and clean_start.get(id(op)) and len(exs) == len(op.units) and len(op.app_reads) <= len(exs) and all(
+                    ex.mode in ("ok", "eof", "truncate", "garbage", "corrupt", "extra", "dead") and len(ex.sent) <= 1024
+                    for ex in exs):
+                cnt(c, "judged-generic-device-side")
+                dev_nonempty = len(exs[-1].sent) > 0
+                if bool(op.outcome[1]["successful"]) != dev_nonempty and nonempty != dev_nonempty:
+                    v.append(("C09/success-flag-vs-device/%s/%s" % (op.kind, "empty" if not dev_nonempty else "nonempty"),
+                              "%s reported successful=%s but the device returned %d bytes to its last frame (replies sent: %s, "
+                              "read: %s)" % (op.kind, op.outcome[1]["successful"], len(exs[-1].sent),
+                                             [len(ex.sent) for ex in exs], [len(r) for r in op.app_reads])))
         else:
             cnt(c, "grey:generic-raised")
         if lr is not None and len(lr) == 0 and (op.kind in STATE_QUERIES or op.kind in TYPE2_OPS):
